@@ -209,6 +209,39 @@ Theorem C10_parser_main_loop_fuel :
 Proof. exact parser_main_fuel. Qed.
 Print Assumptions C10_parser_main_loop_fuel.
 
+(* right-to-left inside lookbehind: scanGroupOpen on "(?<=" / "(?<!" returns a lookaround node that carries the
+   RightToLeft bit and leaves the parser's current options - under which the group's alternation, its concatenation
+   and every node of the body are created - with the bit set; "(?=" / "(?!" clear it ... *)
+Theorem C10_parser_lookbehind_opens_right_to_left :
+  forall (is_word_char : Z -> bool) (tb : captab) (mco : bool) (gt : Z) (v : gvars) (c : Z) (p : list Z),
+    c = 61 \/ c = 33 ->
+    group_open is_word_char tb mco gt v (63 :: 60 :: c :: p) =
+      POk (Some (mk_node (if c =? 61 then T_PosLook else T_NegLook) (set_rtl (gv_o v))),
+           mkGV (set_rtl (gv_o v)) false (gv_autocap v), p)
+    /\ useRTL (set_rtl (gv_o v)) = true.
+Proof. exact lookbehind_opens_right_to_left. Qed.
+Print Assumptions C10_parser_lookbehind_opens_right_to_left.
+
+Theorem C10_parser_lookahead_opens_left_to_right :
+  forall (is_word_char : Z -> bool) (tb : captab) (mco : bool) (gt : Z) (v : gvars) (c : Z) (p : list Z),
+    c = 61 \/ c = 33 ->
+    group_open is_word_char tb mco gt v (63 :: c :: p) =
+      POk (Some (mk_node (if c =? 61 then T_PosLook else T_NegLook) (clear_rtl (gv_o v))),
+           mkGV (clear_rtl (gv_o v)) false (gv_autocap v), p)
+    /\ useRTL (clear_rtl (gv_o v)) = false.
+Proof. exact lookahead_opens_left_to_right. Qed.
+Print Assumptions C10_parser_lookahead_opens_left_to_right.
+
+(* ... and nothing else can change it: an inline option string "(?imnsxu-imnsxu" never touches the RightToLeft,
+   ECMAScript or RE2 bits.  (That the whole BODY of a lookbehind then carries the bit is a statement about every node
+   the reducers move; it is checked per tree by leg c10-parse - driver check dir_okb - not proved: _partial.) *)
+Theorem C10_parser_inline_options_keep_direction_partial :
+  forall (o : Z) (p : list Z) (o' : Z) (q : list Z),
+    scan_options_text o p = (o', q) ->
+    useRTL o' = useRTL o /\ useE o' = useE o /\ useRE2 o' = useRE2 o.
+Proof. exact inline_options_keep_top_bits. Qed.
+Print Assumptions C10_parser_inline_options_keep_direction_partial.
+
 (* ---- witnesses (ASCII oracles) ---- *)
 Definition c10_word (c : Z) : bool := ((48 <=? c) && (c <=? 57)) || ((65 <=? c) && (c <=? 90)) || ((97 <=? c) && (c <=? 122)) || (c =? 95).
 Definition c10_lower (c : Z) : Z := if (65 <=? c) && (c <=? 90) then c + 32 else c.
